@@ -39,7 +39,8 @@ def check_fallback(ctx):
     if gq is None:
         raise AnalysisError('no generic check class')
     pc = prog.func(PARSER + '._parse_check')
-    t = Table(prog, pc)
+    from .c01 import leaf_inline
+    t = Table(prog, pc, inline=leaf_inline(prog))
     W = ctx.where(pc.module, pc.node)
     # split(':', 1)
     splits = [d for d in t.en.defs.values() if isinstance(d, ast.Call)
@@ -102,20 +103,22 @@ def check_generic(ctx, gq):
     f = prog.find_method(gq, '__call__')
     prm = f.params
     target_p, creds_p = prm[1], prm[2]
+    # the credential walker: the self-recursive function of this module
+    # reachable from the generic check's __call__
     walker = None
-    for call, g in prog.callees(f):
-        if g.cls is not None and g.cls.qual == gq and g is not f and \
-                isinstance(call, ast.Call):
+    for q, g in sorted(prog.region(f).items()):
+        if g.module.name != CHECKS or g is f:
+            continue
+        if any(isinstance(c, ast.Call) and prog.callee_of(g, c) is g
+               for c in ast.walk(g.node)):
             walker = g
     if walker is None:
         raise AnalysisError('generic check has no credential walker')
 
-    from ..dte import inline_self_methods
-    helpers = {g.qual for q in prog.mro(gq) if q in prog.classes
-               for g in prog.classes[q].methods.values()
-               if not g.name.startswith('__') and g is not walker}
-    t = Table(prog, f, inline=inline_self_methods(prog, only=helpers)
-              if helpers else None)
+    from ..dte import inline_helpers
+    t = Table(prog, f, inline=inline_helpers(
+        prog, modules={CHECKS}, exclude={walker.qual, CHECKS + '._check'}),
+        max_depth=4)
     W = ctx.where(f.module, f.node)
     is_match = lambda x: substituted_match(t, x, target_p)
     n_lit = n_walk = n_subst = 0
@@ -151,7 +154,8 @@ def check_generic(ctx, gq):
                    'the literal comparison is not `substituted match == '
                    'str(literal_eval(kind))`')
             continue
-        if isinstance(e, ast.Call) and prog.callee_of(f, e) is walker:
+        if isinstance(e, ast.Call) and prog.callee_of(
+                prog.functions.get(p.outcome.frame, f), e) is walker:
             n_walk += 1
             # reachable only from the literal-failure path
             lit_fail = any('try@' in str(c.expr.value) for c in excs) and \
@@ -165,7 +169,8 @@ def check_generic(ctx, gq):
                    'the credential path walk is reachable without first '
                    'trying the left side as a literal')
             args = list(e.args)
-            wp = walker.params[1:]
+            wp = walker.params[1:] if walker.cls is not None \
+                else walker.params
             bound = dict(zip(wp, args))
             for k in e.keywords:
                 bound[k.arg] = k.value
@@ -204,7 +209,7 @@ def check_generic(ctx, gq):
 def check_walker(ctx, walker):
     prog = ctx.prog
     f = walker
-    wp = f.params[1:]
+    wp = f.params[1:] if f.cls is not None else f.params
     if len(wp) != 3:
         raise AnalysisError('credential walker signature changed')
     val_p, seg_p, m_p = wp
